@@ -15,7 +15,10 @@ Record wobs := mkWobs {
   r_err : bool;                          (* RemoveSpec returned an error *)
   r_deleted : list string;               (* files deleted by RemoveSpec *)
   r_other : list string;                 (* anything else RemoveSpec changed *)
-  r2_err : bool                          (* RemoveSpec of the now missing name returned an error *)
+  r2_err : bool;                         (* RemoveSpec of the now missing name returned an error *)
+  w_again : list string                  (* files created by writing the same Spec under the same name once more (no refresh
+                                            since the removal), with the content of the first write; then an overwrite of
+                                            foreign content at that path restores that content too (else "<foreign>" is listed) *)
 }.
 
 Inductive case16 :=
@@ -44,7 +47,7 @@ Definition corr16 (c : case16) : bool :=
           negb (w_err o) && ls_eqb (w_changed o) [p] && ls_eqb (w_deleted o) [] &&
           Bool.eqb (w_json o) (String.eqb (ext p) ".json") &&
           list_eqb (pair_eqb String.eqb Z.eqb) (w_resolved o) (repeat (p, Z.of_nat prio) ndev) &&
-          negb (r_err o) && ls_eqb (r_deleted o) [rp] && ls_eqb (r_other o) [] && negb (r2_err o)
+          negb (r_err o) && ls_eqb (r_deleted o) [rp] && ls_eqb (r_other o) [] && negb (r2_err o) && ls_eqb (w_again o) [p]
       | _, _, _ => w_err o
       end
   end.
@@ -74,7 +77,7 @@ Definition oracle16 (c : case16) : bool :=
           forallb (fun d => ancestor_or_self d top) (w_dirs o) &&
           Bool.eqb (w_json o) (has_suffix ".json" name) &&
           list_eqb (pair_eqb String.eqb Z.eqb) (w_resolved o) (repeat (f, Z.of_nat (length dirs - 1)) ndev) &&
-          negb (r_err o) && ls_eqb (r_deleted o) [f] && ls_eqb (r_other o) [] && negb (r2_err o)
+          negb (r_err o) && ls_eqb (r_deleted o) [f] && ls_eqb (r_other o) [] && negb (r2_err o) && ls_eqb (w_again o) [f]
       end
   end.
 
